@@ -22,19 +22,13 @@ def g_plan(ctx):
 
 
 def g_flat(ctx):
-    """T-FLAT: enumerated rules only (thorough tier); in the quick tier the rule has no instances."""
-    if ctx.tier != "thorough":
-        from .core import RuleResult
-        r = RuleResult("T-FLAT")
-        r.notes.append("T-FLAT runs in the thorough tier only")
-        return [r]
+    """T-FLAT: enumerated rules only (quick: a seeded sample of 120; thorough: the whole family)."""
+    setname = "enum" if ctx.tier == "thorough" else "enumq%d" % ctx.seed
 
     def f(p):
-        if p.set != "enum":
-            return []
         side = p.job["src"][:-4] + ".json"
         return [rules_flat.rule_flat(p.model, list(p.model.rule_mods.values()), side)]
-    return ctx.per_model(["T-FLAT"], f, sets=("enum",))
+    return ctx.per_model(["T-FLAT"], f, sets=(setname,))
 
 
 def g_template(ctx):
